@@ -8,7 +8,7 @@ REPO=${REPO:-/repo}
 VERIF=$(cd "$(dirname "$0")/.." && pwd)
 SRC="$REPO/lib/libconfig.c $REPO/lib/scanctx.c $REPO/lib/scanner.c $REPO/lib/grammar.c $REPO/lib/strbuf.c $REPO/lib/strvec.c $REPO/lib/util.c $REPO/lib/wincompat.c"
 HDR=$(ls $REPO/lib/*.h)
-H=$( (cat $SRC $HDR "$VERIF/harness/drv.c" "$0"; echo $V) | sha256sum | cut -c1-16)
+H=$( (cat $SRC $HDR "$VERIF/harness/drv.c" "$VERIF/harness/thr.c" "$0"; echo $V) | sha256sum | cut -c1-16)
 OUT="$VERIF/build/harness/$V-$H"
 if [ ! -x "$OUT/drv" ]; then
   mkdir -p "$OUT"
@@ -35,5 +35,11 @@ if [ ! -x "$OUT/drv" ]; then
   mv "$OUT/drv.tmp" "$OUT/drv"
   # keep only the 6 most recent cached builds per variant
   ls -dt "$VERIF"/build/harness/$V-* 2>/dev/null | tail -n +7 | xargs -r rm -rf
+fi
+if [ "$V" = tsan ] || [ "$V" = plain ]; then
+  if [ ! -x "$OUT/thr" ]; then
+    gcc $FL $DEFS -I"$REPO/lib" -o "$OUT/thr.tmp" "$VERIF/harness/thr.c" $SRC -lpthread 2>>"$OUT/build.log" || { cat "$OUT/build.log" >&2; exit 3; }
+    mv "$OUT/thr.tmp" "$OUT/thr"
+  fi
 fi
 echo "$OUT/drv"
